@@ -310,6 +310,10 @@ class Prop(Check):
         "Kwd.C21_same_model",
         "Kwd.C21_literal_value",
         "Kwd.C21_glued_differs",
+        "Peg.Case.C21_autokwdTok_compileLit",
+        "Peg.Case.C21_same_tokTable",
+        "Peg.Case.C21_same_run",
+        "Peg.Case.C21_run_glued_differs",
     ]
     DRIVER = "Drivers/Re.lean"
     PROCS_THOROUGH = 4
